@@ -50,4 +50,33 @@ PROPS = {
             "sim": REAL_COMMON,
         },
     },
+    "C14": {
+        "engine": "pdbsim",
+        "instrument": "internal/profiledb=locks;internal/profiledb/internal/filecachepb=calls:renameio\\.|os\\.WriteFile|os\\.Rename",
+        "modreplace": {"github.com/google/renameio/v2@v2.0.0": "calls:^t\\.Write$|^t\\.Sync$|os\\.Rename|CloseAtomicallyReplace"},
+        "cfgs": ["", "nocrash"],
+        "quick": {"seconds": 40, "chunk": 1500, "runs": 60000},
+        "thorough": {"seconds": 900, "chunk": 5000},
+        "rule": ("one run = simulated backend (1-3 profiles, up to 8 devices, pools of 4 linked IPs, 4 dedicated IPs, "
+                 "3 human IDs) mutated by tape-chosen operations (add/remove/move device, set/take over/swap/clear "
+                 "linked IP, dedicated IPs, human IDs, delete/re-create profile, change every profile and device "
+                 "setting) between 1-6 refreshes whose kind (full/incremental) the database chooses from simulated "
+                 "time; 1-3 lookup tasks x 1-12 lookups by all four key kinds; storage errors; yields before every "
+                 "lock acquisition in profiledb (so every `go db.remove...` clean-up is ordered by the tape against "
+                 "the next sync and lookups), during the storage request, and around the steps of the atomic cache "
+                 "write; crash images of the cache directory at those steps; non-trivial = a preemption was taken or "
+                 "a fault fired; distinct = distinct decision-sequence hash"),
+        "assumptions": [
+            "the backend stub sends, like the real one, every changed profile with all of its devices, and at most one current owner per key",
+            "a lookup overlapping a refresh may see the version before or after it; exact equality is demanded from lookups that do not overlap one",
+            "CreateAutoDevice is not simulated",
+            "crash images model a killed process (every completed syscall survives); power loss is out of reach without a file-system seam",
+            "renameio v2.0.0 runs real code with yields inserted by overlay between its write, sync and rename steps",
+        ],
+        "components": {
+            "real": ["internal/profiledb.Default", "internal/profiledb/internal/filecachepb (protobuf encode/decode, Store, Load)", "github.com/google/renameio/v2 (instrumented)", "real files in a per-run scratch directory"],
+            "stub": ["profiledb.Storage (simulated backend with change log)", "errcoll, metrics (no-op)"],
+            "sim": REAL_COMMON,
+        },
+    },
 }
